@@ -330,7 +330,7 @@ theorem apply_arith (hx : ExtOk ext) {S : Store} {st : St F} (hk : HeapOk S st.h
   cases hc : ext.call "math.mod" [XArg.num l, XArg.num r] with
   | none => exact ⟨S, Grows.refl S, hk, .num _, rfl, rfl⟩
   | some res =>
-    obtain ⟨v, rfl⟩ := hx _ _ hc
+    obtain ⟨v, rfl⟩ := hx.1 "math.mod" (by simp [numFns]) _ _ hc
     exact ⟨S, Grows.refl S, hk, .num _, rfl, rfl⟩
 
 theorem apply_cmpNum {S : Store} {st : St F} (hk : HeapOk S st.heap) (op : Op) (h : isCmp op = true) (l r : F) :
